@@ -3,6 +3,7 @@ package main
 import (
 	"fmt"
 	"sort"
+	"strings"
 	"go/token"
 	"go/types"
 
@@ -44,7 +45,7 @@ func (fr *Frame) onMakeChan(i *ssa.MakeChan, ref Term) {
 	}
 	for _, c := range fc.MakeChans[ord] {
 		env := fr.specEnvHere().bind("ch", &Val{T: ref, S: SInt, Typ: i.Type()})
-		t, err := fr.evalSpecBool(c.Expr, env)
+		t, err := fr.evalSpecAssume(c.Expr, env)
 		if err != nil {
 			fr.vc.specError(fr, c, err)
 			continue
@@ -109,7 +110,7 @@ func (fr *Frame) onRecvOk(ch *Val, v *Val, ok Term, pos token.Pos) {
 		}
 		env := fr.specEnvHere().bind("ch", ch)
 		env.pkg = fr.vc.eng.spkgs[ci.PkgPath]
-		t, err := fr.evalSpecBool(ci.Clause.Expr, env)
+		t, err := fr.evalSpecAssume(ci.Clause.Expr, env)
 		if err == nil {
 			genuine = or(genuine, t)
 		}
@@ -120,7 +121,7 @@ func (fr *Frame) onRecvOk(ch *Val, v *Val, ok Term, pos token.Pos) {
 		}
 		env := fr.specEnvHere().bind("ch", ch).bind("v", v)
 		env.pkg = fr.vc.eng.spkgs[ci.PkgPath]
-		t, err := fr.evalSpecBool(ci.Clause.Expr, env)
+		t, err := fr.evalSpecAssume(ci.Clause.Expr, env)
 		if err != nil {
 			fr.vc.specError(fr, ci.Clause, err)
 			continue
@@ -155,6 +156,7 @@ func (fr *Frame) onClose(ch *Val, pos token.Pos) {
 
 // onSend: a sent value must satisfy the channel invariant.
 func (fr *Frame) onSend(ch *Val, v *Val, pos token.Pos) {
+	fr.anchorAsserts("send", "", pos, map[string]*Val{"ch": ch, "v": v})
 	et := chanElem(ch)
 	if et == nil {
 		return
@@ -237,8 +239,11 @@ func (fr *Frame) onAcquire(id Term, write bool, pos token.Pos) {
 	arg := fr.curLockArg
 	fr.curLockArg = nil
 	obj, n, field := fr.lockOwner(arg)
+	if field != "" {
+		fr.anchorAsserts("lock", field, pos, nil)
+	}
 	for _, li := range fr.lockInvs(n, field) {
-		t, err := fr.evalSpecBool(li.Clause.Expr, fr.lockInvEnv(obj, n))
+		t, err := fr.evalSpecAssume(li.Clause.Expr, fr.lockInvEnv(obj, n))
 		if err != nil {
 			fr.vc.specError(fr, li.Clause, err)
 			continue
@@ -268,3 +273,44 @@ func (fr *Frame) onRelease(id Term, write bool, pos token.Pos) {
 	}
 }
 func (fr *Frame) onCondWait(id Term, pos token.Pos)                       {}
+
+
+// anchorAsserts emits the function contract's `assert <anchor>: P` clauses for a site.
+// kind is "send", "call", "lock" or "unlock"; what is the callee / mutex field name.
+func (fr *Frame) anchorAsserts(kind, what string, pos token.Pos, bind map[string]*Val) {
+	fc := fr.contr
+	if fc == nil {
+		fc = fr.vc.eng.contractOf(fr.fn)
+	}
+	if fc == nil || len(fc.Asserts) == 0 {
+		return
+	}
+	var anchors []string
+	for a := range fc.Asserts {
+		anchors = append(anchors, a)
+	}
+	sort.Strings(anchors)
+	for _, a := range anchors {
+		f := strings.SplitN(a, " ", 2)
+		if f[0] != kind {
+			continue
+		}
+		if len(f) == 2 && !strings.Contains(what, f[1]) {
+			continue
+		}
+		for i, c := range fc.Asserts[a] {
+			env := fr.specEnvHere()
+			for k, v := range bind {
+				env = env.bind(k, v)
+			}
+			t, err := fr.evalSpecBool(c.Expr, env)
+			if err != nil {
+				fr.vc.specError(fr, c, err)
+				continue
+			}
+			p := fr.pos(pos)
+			src := fr.vc.eng.srcLine(p)
+			fr.vc.oblige("assert", fmt.Sprintf("%s/assert#%d@%s#%s", relFuncName(fr.vc.fn), i+1, strings.ReplaceAll(a, " ", "."), hash4(src)), p, c.Text, fr.reach, t, c.Props)
+		}
+	}
+}
